@@ -594,3 +594,43 @@ Proof.
     cbn [fst snd]. repeat split; try assumption.
     rewrite B. lia.
 Qed.
+
+(* ---------- blob_ok discharged over built states ---------- *)
+Lemma built_blob_ok : forall s blob,
+  built s ->
+  (forall k, (k < length (s_stripes s))%nat -> length (nth k (s_hosts s) []) = (s_n s + s_m s)%nat) ->
+  blob_ok s blob.
+Proof.
+  intros s blob B Hk t _. destruct (find_in_stripes t (s_stripes s) 0) as [[[k j] e]|] eqn:Ef; [|exact I].
+  destruct (find_in_stripes_spec _ _ _ _ _ _ Ef) as [k' [Ek [Hlt _]]]. simpl in Ek. subst k'.
+  apply built_wf_read; [exact B | exact Ef | apply Hk; exact Hlt].
+Qed.
+
+Theorem read_at_exact_or_fail_closed_built_lemma : forall s blob off len blank fail,
+  built s ->
+  (forall k, (k < length (s_stripes s))%nat -> length (nth k (s_hosts s) []) = (s_n s + s_m s)%nat) ->
+  let R := read_at true s true blank fail blob off len in
+  let P := read_at true s false [] [] blob off len in
+  R = P \/
+  (snd (fst R) = 2 /\ fst (fst R) <= fst (fst P) /\ snd R = firstn (N.to_nat (fst (fst R))) (snd P)).
+Proof.
+  intros s blob off len blank fail B Hk.
+  apply read_at_exact_or_fail_closed_lemma. apply built_blob_ok; assumption.
+Qed.
+
+Theorem read_at_fail_closed_blob_built_lemma : forall s blob off len blank fail i t o w k j e,
+  built s ->
+  (forall k, (k < length (s_stripes s))%nat -> length (nth k (s_hosts s) []) = (s_n s + s_m s)%nat) ->
+  nth_error (consulted blob off len) i = Some (t, (o, w)) ->
+  find_in_stripes t (s_stripes s) O = Some (k, j, e) ->
+  down blank fail (nth j (nth k (s_hosts s) []) 0) = true ->
+  (s_m s < down_count s k blank fail)%nat ->
+  o < t_len (nth t (s_tracts s) dummy_tract) ->
+  let R := read_at true s true blank fail blob off len in
+  let P := read_at true s false [] [] blob off len in
+  snd (fst R) = 2 /\ fst (fst R) <= req_before blob off len i /\
+  fst (fst R) <= fst (fst P) /\ snd R = firstn (N.to_nat (fst (fst R))) (snd P).
+Proof.
+  intros s blob off len blank fail i t o w k j e B Hk.
+  apply read_at_fail_closed_blob_lemma. apply built_blob_ok; assumption.
+Qed.
